@@ -54,9 +54,9 @@ MJD_HALF_ULP_S = 0.5 * 7.275957614183426e-12 * 86400  # half an ulp of a float M
 def jobs(tier):
     q = tier == "quick"
     return [
-        {"name": "interp", "n": 1600 if q else 40000, "eop": "zero"},
-        {"name": "dated", "n": 1200 if q else 30000, "eop": "zero"},
-        {"name": "kepler", "n": 480 if q else 12000, "eop": "zero"},
+        {"name": "interp", "n": 1600 if q else 32000, "eop": "zero"},
+        {"name": "dated", "n": 1200 if q else 24000, "eop": "zero"},
+        {"name": "kepler", "n": 480 if q else 9600, "eop": "zero"},
     ]
 
 
